@@ -27,6 +27,10 @@ func UnwrapPtr(x any) any {
 		return x
 	}
 	for refVal.Kind() == reflect.Ptr {
+		if refVal.IsNil() {
+			// a nil pointer (at any depth) unwraps to nil; Elem() would give a zero Value whose Interface() panics
+			return nil
+		}
 		refVal = refVal.Elem()
 	}
 	return refVal.Interface()
